@@ -20,7 +20,7 @@ MATRIX_ONLY_FUNCS = {"measure_POVM", "apply_kraus"}   # promotion itself is chec
 
 
 def state_functions(repo: Repo) -> List[FuncInfo]:
-    return [f for f in repo.all_functions() if f.module.name in STATE_MODULES]
+    return [f for f in repo.scan_functions() if f.module.name in STATE_MODULES]
 
 
 def self_levels(fi: FuncInfo, cfg: Optional[CFG] = None) -> Tuple[CFG, Dict[Node, FrozenSet[int]]]:
@@ -141,6 +141,7 @@ def renorm(repo: Repo) -> List[Ob]:
     under `if operation.renormalize:`; ZERO: and rejects an all-zero result of the *applied* value"""
     obs: List[Ob] = []
     total = 0
+    cfgs: Dict[str, CFG] = {}
     for q in APPLY_BODIES:
         fi = repo.func(q)
         branches = _level_branches(fi)
@@ -163,14 +164,38 @@ def renorm(repo: Repo) -> List[Ob]:
             # ZERO
             applied = _applied_names(body)
             has_zero = False
+            ztests = []
             for n in [x for s in body for x in [s] + list(walk_no_nested(s))]:
                 if isinstance(n, ast.If) and any(isinstance(b, ast.Raise) for b in n.body):
                     names = {src(t) for t in ast.walk(n.test) if isinstance(t, (ast.Name, ast.Attribute))}
                     if names & applied:
                         has_zero = True
-            (obs.append(ok("ZERO", fi, f"zero-test@{lvl}", ("C07", "C17"), br, "all-zero result of the applied value is rejected")) if has_zero else
-             obs.append(bad("ZERO", fi, f"zero-test@{lvl}", ("C07", "C17"), br,
-                            f"the {lvl} branch has no `if <applied value is all zero>: raise` (annihilating the vacuum would store a null state)")))
+                        ztests.append(n)
+            if not has_zero:
+                obs.append(bad("ZERO", fi, f"zero-test@{lvl}", ("C07", "C17"), br,
+                               f"the {lvl} branch has no `if <applied value is all zero>: raise` (annihilating the vacuum would store a null state)"))
+                continue
+            # path form: no route from the application to a write of the stored state goes round the test
+            cfg = cfgs.setdefault(q, CFG(fi.node))
+            inside = {id(x) for s in body for x in [s] + list(ast.walk(s))}
+            a_nodes = [nd for nd in cfg.nodes if nd.kind == "stmt" and isinstance(nd.ast, ast.Assign) and id(nd.ast) in inside
+                       and any(src(t) in applied for t in nd.ast.targets)
+                       and any(call_np(c) in ("einsum", "matmul", "dot", "tensordot") or (isinstance(c, ast.BinOp) and isinstance(c.op, ast.MatMult))
+                               for c in [nd.ast.value] + list(walk_no_nested(nd.ast.value)))]
+            z_nodes = {nd for nd in cfg.nodes if nd.kind == "test" and any(nd.stmt is z for z in ztests)}
+            commits = [nd for nd in cfg.nodes if nd.kind == "stmt" and isinstance(nd.ast, (ast.Assign, ast.AugAssign)) and id(nd.ast) in inside
+                       and any(isinstance(t, ast.Attribute) and t.attr == "state" for t in (nd.ast.targets if isinstance(nd.ast, ast.Assign) else [nd.ast.target]))
+                       and nd not in a_nodes]
+            if not a_nodes or not z_nodes:
+                obs.append(ok("ZERO", fi, f"zero-test@{lvl}", ("C07", "C17"), br, "all-zero result of the applied value is rejected"))
+                continue
+            last = a_nodes[-1]
+            reach = cfg.reachable([m for m, _ in cfg.succ[last]], blocked=z_nodes)
+            around = [c for c in commits if c in reach]
+            (obs.append(bad("ZERO", fi, f"zero-test@{lvl}", ("C07", "C17"), around[0].ast,
+                            f"the {lvl} branch can store the applied value (`{src(around[0].ast)[:60]}`) on a path that does not evaluate the all-zero test: "
+                            "annihilating the vacuum is not rejected there and a null state is stored")) if around else
+             obs.append(ok("ZERO", fi, f"zero-test@{lvl}", ("C07", "C17"), br, "every path from the application to the store evaluates the all-zero test")))
     if total < 10:
         raise AnalysisError(f"RENORM/ZERO: {total} level branches (floor 10)")
     return obs
@@ -388,9 +413,9 @@ def tag(repo: Repo) -> List[Ob]:
             continue
         for x in walk_no_nested(m.node):
             if isinstance(x, ast.Attribute) and x.attr == "_expansion_level" and isinstance(x.ctx, ast.Store) and src(x.value) == "self":
-                obs.append(bad("TAG", m, "setter-bypassed", ("C07",), x,
+                obs.append(bad("TAG", m, "setter-bypassed", ("C07", "C08") if mname in ("contract", "expand") else ("C07",), x,
                                "Envelope._expansion_level is written directly instead of through the expansion_level setter: fock and polarization keep reporting the old level while the envelope holds data of the new one"))
-    obs.append(ok("TAG", "Envelope", "setter-not-bypassed-scan", ("C07",), None, f"{len(env.methods)} Envelope methods scanned"))
+    obs.append(ok("TAG", "Envelope", "setter-not-bypassed-scan", ("C07", "C08"), None, f"{len(env.methods)} Envelope methods scanned"))
     # Envelope's setter propagates to both members
     setter = repo.func("Envelope.expansion_level.setter")
     tgt = {src(t) for n in walk_no_nested(setter.node) if isinstance(n, ast.Assign) for t in n.targets}
@@ -432,7 +457,7 @@ def contract_only(repo: Repo) -> List[Ob]:
     obs: List[Ob] = []
     P = ("C08",)
     reads = 0
-    for fi in repo.all_functions():
+    for fi in repo.scan_functions():
         if not fi.module.name.startswith("photon_weave") or (fi.cls is not None and fi.cls.name == "Config"):
             continue
         parents = {}
@@ -604,7 +629,7 @@ def sandwich(repo: Repo) -> List[Ob]:
     obs: List[Ob] = []
     n_call = 0
     n_lit = 0
-    funcs = state_functions(repo) + [f for f in repo.all_functions() if f.module.name.endswith("_math.ops") or "fock_dimension" in f.module.name]
+    funcs = state_functions(repo) + [f for f in repo.scan_functions() if f.module.name.endswith("_math.ops") or "fock_dimension" in f.module.name]
     for fi in funcs:
         props = _sandwich_props(fi)
         k = 0
